@@ -754,6 +754,55 @@ def check_purge(ctx, R="C14.globals"):
             )
 
 
+def check_start_idempotent(ctx, R="C14.start"):
+    ctx.rule(
+        R,
+        "starting a scenario is idempotent on the compiled scenario object: the top-level DynamicScenario is started again by every simulation, so an "
+        "attribute that _start updates from its own previous value (`self.x /= t`, `self.x = f(self.x)`, `self.x.append(...)` is covered by C14.runstate) "
+        "must have been re-initialised earlier in the same _start from something else; otherwise the second simulation starts from what the first one "
+        "left (e.g. a time limit in seconds divided by the timestep once per run)",
+    )
+    model = ctx.model
+    fn = model.func(DS, "DynamicScenario._start")
+    stmts = sorted((x for x in walk_local(fn) if isinstance(x, (ast.Assign, ast.AugAssign, ast.AnnAssign))), key=lambda x: (x.lineno, x.col_offset))
+
+    def self_attrs(t):
+        if isinstance(t, ast.Attribute) and isinstance(t.value, ast.Name) and t.value.id == "self":
+            return [t.attr]
+        if isinstance(t, (ast.Tuple, ast.List)):
+            return [a for e in t.elts for a in self_attrs(e)]
+        return []
+
+    def reads(e, attr):
+        return any(isinstance(x, ast.Attribute) and isinstance(x.value, ast.Name) and x.value.id == "self" and x.attr == attr and isinstance(x.ctx, ast.Load) for x in ast.walk(e))
+
+    fresh = set()
+    n = 0
+    for st in stmts:
+        targets = [st.target] if isinstance(st, (ast.AugAssign, ast.AnnAssign)) else st.targets
+        for t in targets:
+            for a in self_attrs(t):
+                n += 1
+                selfdep = isinstance(st, ast.AugAssign) or (st.value is not None and reads(st.value, a))
+                if not selfdep:
+                    # unconditional re-initialisation only
+                    if not [1 for t_, _ in lib.guard_tests(st, fn)]:
+                        fresh.add(a)
+                    ctx.ok(R, st, f"_start sets self.{a} from other state")
+                elif a in fresh:
+                    ctx.ok(R, st, f"_start updates self.{a}, re-initialised earlier in _start")
+                else:
+                    ctx.finding(
+                        R,
+                        st,
+                        f"_start updates self.{a} from its previous value",
+                        f"DynamicScenario._start executes `{norm_text(st, 70)}` without having re-initialised self.{a} first: the compiled top-level scenario is started by every "
+                        f"simulation, so the update compounds (or a flag flipped by the first run changes what the second one does): simulations of the same scene are no longer independent "
+                        f"of the runs before them",
+                    )
+    ctx.floor(R, n, 6, "attribute writes of DynamicScenario._start")
+
+
 def check(ctx):
     ctx.run(check_recorders)
     ctx.run(check_stop_order)
@@ -765,3 +814,4 @@ def check(ctx):
     ctx.run(check_cleanup)
     ctx.run(check_overrides)
     ctx.run(check_requirement_rebinding)
+    ctx.run(check_start_idempotent)
